@@ -109,7 +109,10 @@ GOOD_PATHS = ['a', 'a/b', 'foo.txt', 'a\\x20b', '\\u00E9', 'x\\U0001F600',
 BAD_PATHS = ['/abs', '/', '\\x2Fetc/passwd', '\\u002Fx', '\\U0000002Fx',
              'a\\', 'a\\q', '\\x4', '\\x4g', '\\u123', '\\u12G4', '\\U0001F60',
              '\\U00110000', '\\UFFFFFFFF', '\\U7FFFFFFF', '\\U80000000',
-             '\\x', '\\u', '\\U', '\\\\', 'a\\n', '\\X41', '\\x2fabs']
+             '\\x', '\\u', '\\U', '\\\\', 'a\\n', '\\X41', '\\x2fabs',
+             # digit fields that int(.., 16) would tolerate but that are not hex
+             '\\u0x41', '\\u0X2f', '\\u1_0F', '\\U0010_FFF', '\\x\u0664\u0661',
+             '\\x\uff11\uff12', '\\u+041', '\\x 1', '\\U-0000041']
 EITHER_PATHS = ['\\uD800', 'a\\uDFFFb', '\\U0000D800']
 GOOD_SIZES = ['0', '1', '42', '000', '18446744073709551616', '007']
 BAD_SIZES = ['-1', '-42', 'x', '1x', '0x10', '1.0', '1e3', '', '--1', 'ten',
